@@ -94,6 +94,11 @@ var Externs = map[string]ExternEffect{
 	"strings.Join":                      {Fresh: true},
 	"(*strings.Builder).WriteString":    {WritesParams: []int{0}},
 	"(*strings.Builder).String":         {Fresh: true},
+	"(*strings.Builder).Grow":           {WritesParams: []int{0}},
+	"(*strings.Builder).WriteByte":      {WritesParams: []int{0}},
+	"(*strings.Builder).WriteRune":      {WritesParams: []int{0}},
+	"(*strings.Builder).Len":            {Fresh: true},
+	"(*strings.Builder).Reset":          {WritesParams: []int{0}},
 	"(*bytes.Buffer).String":            {Fresh: true},
 	"(*bytes.Buffer).WriteString":       {WritesParams: []int{0}},
 	"strconv.FormatFloat":               {Fresh: true},
@@ -107,6 +112,7 @@ var Externs = map[string]ExternEffect{
 	"github.com/goark/errs.Wrap":        {Fresh: true, Note: "allocates a new *errs.Error; does not modify the wrapped error"},
 	"github.com/goark/errs.New":         {Fresh: true},
 	"github.com/goark/errs.Is":          {Fresh: true},
+	"errors.Is":                         {Fresh: true},
 	"github.com/goark/errs.WithContext": {Fresh: true},
 	"github.com/goark/errs.WithCause":   {Fresh: true},
 	"io.Copy":                           {WritesParams: []int{0, 1}, Fresh: true, Note: "writes dst, consumes src"},
